@@ -55,6 +55,25 @@ type Case struct {
 	Opts     rt.Opts          `json:"opts"`
 	Ops      []map[string]any `json:"ops"`
 	Override string           `json:"override"`
+	// Local: the options the MODEL prescribes for this pair; when present the same records are also
+	// written with exactly these options into memory and read by the server-side reader without any
+	// handshake or transport (delimits C14 from C01/C04: a wrong decode that shows up here too is
+	// the codec's, not the handshake's)
+	Local *LocalOpts `json:"local"`
+}
+
+type LocalOpts struct {
+	Schema []uint64 `json:"schema"`
+	Descr  bool     `json:"descr"`
+}
+
+type LocalOut struct {
+	WriterErr string   `json:"writer_err"`
+	WriteErr  string   `json:"write_err"`
+	OpenErr   string   `json:"openerr"`
+	Err       string   `json:"err"`
+	Panic     string   `json:"panic,omitempty"`
+	Recs      []string `json:"recs"`
 }
 
 type OptsOut struct {
@@ -90,6 +109,62 @@ type Out struct {
 	Server     *ServerOut `json:"server"`
 	Acks       int        `json:"acks"`
 	Note       string     `json:"note,omitempty"`
+	Local      *LocalOut  `json:"local,omitempty"`
+}
+
+func wireSchemaOf(counts []uint64) *schema.WireSchema {
+	var buf bytes.Buffer
+	buf.Write(binary.AppendUvarint(nil, uint64(len(counts))))
+	for _, c := range counts {
+		buf.Write(binary.AppendUvarint(nil, c))
+	}
+	ws := &schema.WireSchema{}
+	if err := ws.Deserialize(&buf); err != nil {
+		panic(err)
+	}
+	return ws
+}
+
+// runLocal: same records, the model's options, no handshake, no transport
+func runLocal(cl, sv *Side, c *Case) (lo *LocalOut) {
+	lo = &LocalOut{}
+	defer func() {
+		if r := recover(); r != nil {
+			lo.Panic = fmt.Sprint(r)
+		}
+	}()
+	sink := &rt.ChunkSink{}
+	var werr error
+	cenv := &rt.Env{Sch: cl.Sch, Roots: map[string]rt.Root{
+		c.Root: {
+			NewWriter: func(_ pkg.ChunkWriter, o pkg.WriterOptions) (any, error) {
+				o.Schema = nil
+				if c.Local.Schema != nil {
+					o.Schema = wireSchemaOf(c.Local.Schema)
+				}
+				o.IncludeDescriptor = c.Local.Descr
+				o.MaxTotalDictSize = uint(c.MaxDict)
+				w, err := cl.Roots[c.Root].NewWriter(sink, o)
+				werr = err
+				return w, err
+			},
+			NewReader:  func(io.Reader) (any, error) { return nil, io.EOF },
+			WireSchema: cl.Roots[c.Root].WireSchema,
+		},
+	}}
+	ro := cenv.RunCase(&rt.Case{ID: c.ID, Root: c.Root, Opts: c.Opts, Ops: c.Ops})
+	lo.WriterErr = errStr(werr)
+	if werr != nil {
+		return lo
+	}
+	lo.WriteErr, lo.Panic = ro.WErr, ro.Panic
+	senv := &rt.Env{Sch: sv.Sch, Roots: sv.Roots}
+	rd := senv.ReadAll(c.Root, bytes.NewReader(sink.All))
+	lo.OpenErr, lo.Err, lo.Recs = rd.OpenErr, rd.Err, rd.Recs
+	if rd.Panic != "" {
+		lo.Panic = rd.Panic
+	}
+	return lo
 }
 
 func countsOf(ws *schema.WireSchema) []uint64 {
@@ -170,6 +245,9 @@ func runCase(sides map[string]*Side, c *Case) (out *Out) {
 		}
 	}()
 	cl, sv := sides[c.Client], sides[c.Server]
+	if c.Local != nil {
+		out.Local = runLocal(cl, sv, c)
+	}
 	clientWS, err := cl.Roots[c.Root].WireSchema()
 	if err != nil {
 		panic(err)
